@@ -53,6 +53,8 @@ pub struct KCase {
     pub style: LenStyle,
     /// costs are a function of the edge alone (Bellman–Ford oracle applies)
     pub bf_ok: bool,
+    /// the case holds a number outside the properties' quantifiers (`shape_extreme`): correspondence only
+    pub silent: bool,
     pub label: &'static str,
     /// the `[algorithm]` section the algorithm is deserialised from (the application's path,
     /// `get_config_serde`); None = the enum is constructed directly from the fields above
@@ -433,7 +435,7 @@ pub fn encode_k(kc: &KCase, b: &Built, scheds: &[Vec<usize>], pops: &[usize]) ->
     // great-circle metres from every vertex to the inner source (the reverse run's target)
     let gc_rev: Vec<f64> = if inner_target(c).is_some() {
         let s = inner_source(c);
-        c.coords.iter().map(|p| gc_between(*p, c.coords[s])).collect()
+        c.coords.iter().map(|p| gc_entry(*p, c.coords[s])).collect()
     } else {
         vec![]
     };
@@ -680,6 +682,9 @@ fn reopened(scheds: &[Vec<usize>]) -> bool {
 }
 
 fn describe_k(ctx: &mut Ctx, kc: &KCase) {
+    if kc.silent {
+        ctx.count("extreme_correspondence_only");
+    }
     ctx.count(if kc.yen { "alg_yen" } else { "alg_single_via" });
     ctx.count(match kc.base.astar {
         None => "underlying_dijkstra",
@@ -747,7 +752,7 @@ fn base_case(edges: Vec<(usize, usize, f64)>, n_v: usize, source: usize, target:
 }
 
 fn kcase(base: SCase, label: &'static str) -> KCase {
-    KCase { base, yen: false, k_default: 2, query_k: None, sim: None, term: None, style: LenStyle::TieHeavy, bf_ok: true, label, cfg: None, cfg_ok: None, query_wf_json: None }
+    KCase { base, yen: false, k_default: 2, query_k: None, sim: None, term: None, style: LenStyle::TieHeavy, bf_ok: true, label, cfg: None, cfg_ok: None, query_wf_json: None, silent: false }
 }
 
 /// diamond 0 -> {1, 2} -> 3 (upper branch shorter)
@@ -1337,7 +1342,7 @@ pub fn case_at(seed: u64, quick: bool, k: usize, corpus: &[KCase]) -> KCase {
         3 | 4 => Some(KTerm::MaxIt(rng.below(8) as u64)),
         _ => Some(KTerm::Factor(rng.below(4) as u64)),
     };
-    let mut kc = KCase { base, yen, k_default, query_k, sim, term, style, bf_ok, label: "", cfg: None, cfg_ok: None, query_wf_json: None };
+    let mut kc = KCase { base, yen, k_default, query_k, sim, term, style, bf_ok, label: "", cfg: None, cfg_ok: None, query_wf_json: None, silent: false };
     // a quarter of the cases build the algorithm from its configuration JSON, as the application does
     if rng.chance(1, 4) {
         gen_cfg(&mut rng, &mut kc);
@@ -1350,7 +1355,30 @@ pub fn case_at(seed: u64, quick: bool, k: usize, corpus: &[KCase]) -> KCase {
             _ => serde_json::json!(true),
         });
     }
+    if kc.query_wf_json.is_none() {
+        shape_extreme_k(&mut kc, seed, 13, k as u64);
+    }
     kc
+}
+
+/// one single-via case in eight (constructed in code) goes where the generators never do
+/// (`searchprops::shape_extreme`; a generator of its own, so that the other cases keep their choices)
+fn shape_extreme_k(kc: &mut KCase, seed: u64, tag: u64, j: u64) {
+    if kc.yen || kc.cfg.is_some() || !kc.label.is_empty() {
+        return;
+    }
+    let mut rx = Rng::for_case(seed, 9300 + tag, j);
+    if rx.chance(1, 8) {
+        let numeric = rx.chance(2, 3);
+        let sh = crate::searchprops::shape_extreme(&mut kc.base, &mut rx, numeric);
+        if !sh.metric_ok && kc.style == LenStyle::Metric {
+            kc.style = LenStyle::Generic;
+        }
+        if !sh.oracle {
+            kc.silent = true;
+            kc.bf_ok = false;
+        }
+    }
 }
 
 fn sim_json(rng: &mut Rng, s: &Sim) -> serde_json::Value {
@@ -2278,7 +2306,9 @@ pub fn prop_case_at(s: Stream, seed: u64, quick: bool, j: usize) -> KCase {
         2 => Some(KTerm::Exact),
         _ => Some(KTerm::MaxIt(rng.below(8) as u64)),
     };
-    KCase { base, yen, k_default, query_k: None, sim, term, style, bf_ok: false, label: "", cfg: None, cfg_ok: None, query_wf_json: None }
+    let mut kc = KCase { base, yen, k_default, query_k: None, sim, term, style, bf_ok: false, label: "", cfg: None, cfg_ok: None, query_wf_json: None, silent: false };
+    shape_extreme_k(&mut kc, seed, s.tag(), j as u64);
+    kc
 }
 
 /// the property's own oracle on what a KSP query returned (`unlimited`: the outcome of the same query
@@ -2432,6 +2462,10 @@ fn run_single_via_prop(ctx: &mut Ctx, idx: usize, kc: &KCase, s: Stream) {
     } else {
         None
     };
+    if kc.silent || !crate::searchprops::outcome_finite(&ex.outcome) {
+        ctx.count("correspondence_only");
+        return;
+    }
     apply_prop_oracle(ctx, idx, s, kc, &b, &ex, unlimited.as_ref());
 }
 
@@ -2791,6 +2825,10 @@ fn run_single_via(ctx: &mut Ctx, idx: usize, kc: &KCase) {
     let out = k_outcome_line(&ex.outcome);
     ctx.emit(idx, line, out.clone());
     describe_k(ctx, kc);
+    if kc.silent || !crate::searchprops::outcome_finite(&ex.outcome) {
+        ctx.count("correspondence_only");
+        return;
+    }
     if oracle_early(ctx, idx, kc, &ex.outcome) {
         return;
     }
@@ -2921,5 +2959,5 @@ pub fn run(ctx: &mut Ctx) -> &'static str {
     run_yen_batch(ctx, yen_items);
     run_kterm(ctx, ctx.n(300, 6000));
     run_ksim(ctx, ctx.n(500, 10000));
-    "diamond chains, grids, ladders, spur paths and random digraphs with tie-heavy / generic / metric lengths; single-via and Yen (Yen only in child processes under a 1 GiB address-space limit and a 2 s timeout); k = 0..6 from configuration and from the query (also non-integer); AcceptAll (explicit and default), edge-id and distance-weighted cosine thresholds; Exact / MaxIteration / Factor; Dijkstra and A* underlying; vertex and edge orientation; turn delays, turn restrictions, other frontier models and termination limits; non-trivial = successful query returning at least two routes, distinct by full output"
+    "diamond chains, grids, ladders, spur paths and random digraphs with tie-heavy / generic / metric lengths; single-via and Yen (Yen only in child processes under a 1 GiB address-space limit and a 2 s timeout); k = 0..6 from configuration and from the query (also non-integer); AcceptAll (explicit and default), edge-id and distance-weighted cosine thresholds; Exact / MaxIteration / Factor; Dijkstra and A* underlying; vertex and edge orientation; turn delays, turn restrictions, other frontier models and termination limits; non-trivial = successful query returning at least two routes, distinct by full output; one generated single-via case in eight (constructed in code) is pushed into a region the generators never reach (searchprops::shape_extreme: out-of-range coordinates, zero lengths and speeds with the oracles on; 0, -0, negative, 1e308, +-inf, NaN, subnormal numbers and extreme limits as correspondence-only cases, the oracles silent)"
 }
